@@ -516,6 +516,34 @@ class Specs:
                         "a0.wrapping_add(a1)", "a0.wrapping_sub(a1)", expect="different"))
         return out
 
+    # ------------------------------------------------------------------ E-cmpx
+    def cmp_cross(self, lt, rt):
+        """sibling cross-check of the comparison operators between two types
+        (fixed, integer or float, in this operand order): every operator must
+        agree with `partial_cmp`, which is implemented separately"""
+        out = []
+        ps = "a0: &%s, a1: &%s" % (lt, rt)
+        item = "%s~%s" % (lt, rt)
+        pc = "<%s as core::cmp::PartialOrd<%s>>::partial_cmp(a0, a1)" % (lt, rt)
+        O = "core::cmp::Ordering"
+        rel = {"lt": "matches!(%s, Some(%s::Less))" % (pc, O),
+               "le": "matches!(%s, Some(%s::Less) | Some(%s::Equal))" % (pc, O, O),
+               "gt": "matches!(%s, Some(%s::Greater))" % (pc, O),
+               "ge": "matches!(%s, Some(%s::Greater) | Some(%s::Equal))" % (pc, O, O)}
+        for m, b in rel.items():
+            out.append(Pair("E-cmpx", m + "_vs_partial_cmp", item, ps, "bool",
+                            "<%s as core::cmp::PartialOrd<%s>>::%s(a0, a1)" % (lt, rt, m), b))
+        out.append(Pair("E-cmpx", "eq_vs_partial_cmp", item, ps, "bool",
+                        "<%s as core::cmp::PartialEq<%s>>::eq(a0, a1)" % (lt, rt),
+                        "matches!(%s, Some(%s::Equal))" % (pc, O)))
+        # mirror: a < b  <=>  b > a  (the two orders are separate impls for integers and floats)
+        out.append(Pair("E-cmpx", "lt_vs_mirrored_gt", item, ps, "bool",
+                        "<%s as core::cmp::PartialOrd<%s>>::lt(a0, a1)" % (lt, rt),
+                        "<%s as core::cmp::PartialOrd<%s>>::gt(a1, a0)" % (rt, lt)))
+        out.append(Pair("E-cmpx", "partial_cmp_vs_mirrored", item, ps, "Option<%s>" % O,
+                        pc, "<%s as core::cmp::PartialOrd<%s>>::partial_cmp(a1, a0).map(%s::reverse)" % (rt, lt, O)))
+        return out
+
     # ------------------------------------------------------------------ E-conv
     def conv(self, src, dst):
         """From / LossyFrom / wrapping_to_num between two fixed layouts as
